@@ -15,8 +15,12 @@ call, unshare), as a transition system of concurrent processes over one shared s
 * Files: `repo.json` is absent | torn (exists, is not valid JSON: just created with mode "x", or
   truncated with the new text still in the writer's buffer) | valid.  `pkg.json` likewise.
 * Contents are abstract: a workspace tree is a `Nat`, `H` is the directory hash (parameter).
-* `ff = true` is the *patched* `OpenLocked.__exit__` (flush before unlock); the current code is
-  `ff = false`.  Theorems say which one they are about.
+* `Cfg` selects the variant of the code: `ff` flush before unlock in `OpenLocked.__exit__`, `gcMissingOk` gc returns 0
+  when repo.json does not exist, `emptyOk` an empty repo.json is an empty repository and `__addPackage` creates it
+  with a plain open, `lostRace` the builder records itself as user when install returned `(path, False)`.
+  `Cfg.old` is the code before the four fixes, `Cfg.fixed` the code with all of them; the driver takes the flags
+  from `Generated/ConstsC15.lean` (extracted from the current source).  An empty file and a file truncated with the
+  new text still buffered are the same thing on disk: `torn`.
 -/
 namespace Share
 
@@ -110,6 +114,17 @@ inductive Pc where
   | bSymlink (b : Bid)
   | done (r : Res)
   deriving DecidableEq, Repr
+
+/-- which of the four fixes the modelled source contains -/
+structure Cfg where
+  ff : Bool
+  gcMissingOk : Bool
+  emptyOk : Bool
+  lostRace : Bool
+  deriving DecidableEq, Repr
+
+def Cfg.old : Cfg := ⟨false, false, false, false⟩
+def Cfg.fixed : Cfg := ⟨true, true, true, true⟩
 
 structure Store where
   storeExists : Bool
@@ -240,7 +255,7 @@ def opLink (prog : Prog) : Bool :=
   | _ => false
 
 /-- what the caller of the share API does with its result (`builder.py`) -/
-def afterShare (prog : Prog) (g : Store) (r : Res) : Store × Pc :=
+def afterShare (cfg : Cfg) (prog : Prog) (g : Store) (r : Res) : Store × Pc :=
   if !opLink prog then (g, .done r)
   else
     match r with
@@ -252,21 +267,32 @@ def afterShare (prog : Prog) (g : Store) (r : Res) : Store × Pc :=
       match g.links (opWs prog) with
       | some _ => (g, .bUnlink none)
       | none => (g, .done (.shared false))
-    | .inst _ => (g, .bSymlink (opBid prog))
+    | .inst installed =>
+      -- fix 4: somebody else installed the package: register as its user first
+      if cfg.lostRace && !installed then (g, .uOpen) else (g, .bSymlink (opBid prog))
     | r => (g, .done r)
 
 /-- return of `gc`: the command itself, or the automatic call at the end of an install -/
-def finishGc (prog : Prog) (g : Store) (r : Res) : Store × Pc :=
+def finishGc (cfg : Cfg) (prog : Prog) (g : Store) (r : Res) : Store × Pc :=
   match prog.op with
   | .install .. =>
     match r with
     | .err e => (g, .done (.err e))
-    | _ => afterShare prog g (.inst true)
+    | _ => afterShare cfg prog g (.inst true)
   | _ => (g, .done r)
 
-def gcStart (prog : Prog) (g : Store) : Store × Pc :=
-  if prog.quota.isNone && !(gcCtx prog).pruneUnused then finishGc prog g .gcNone
-  else if !g.storeExists then finishGc prog g (.gcSize 0)
+/-- `json.load` of repo.json under the lock: an empty file is an empty repository only with fix 3 -/
+def readRepo (cfg : Cfg) : RepoFile → Option (List (Bid × Nat))
+  | .valid l => some l
+  | .torn => if cfg.emptyOk then some [] else none
+  | .absent => none
+
+def repoMissing (cfg : Cfg) (g : Store) : Bool :=
+  if cfg.gcMissingOk then (match g.repo with | .absent => true | _ => false) else !g.storeExists
+
+def gcStart (cfg : Cfg) (prog : Prog) (g : Store) : Store × Pc :=
+  if prog.quota.isNone && !(gcCtx prog).pruneUnused then finishGc cfg prog g .gcNone
+  else if repoMissing cfg g then finishGc cfg prog g (.gcSize 0)
   else (g, .gOpen)
 
 /-- end of the scan: sort, run the quota loop; the moves themselves are separate segments -/
@@ -293,10 +319,11 @@ def touch (g : Store) (b : Bid) : Store :=
   | some d => { g with final := upd g.final b (some { d with mtime := g.clock }), clock := g.clock + 1 }
   | none => g
 
-/-- One segment of process code.  `H` directory hash, `ff` flush-before-unlock (patched code),
+/-- One segment of process code.  `H` directory hash, `cfg` the variant of the code,
 `exO`/`shO`: another process holds the repository lock exclusively / shared.  A blocked process
 does not move. -/
-def stepPc (H : Nat → Nat) (ff : Bool) (prog : Prog) (exO shO : Bool) (g : Store) (pc : Pc) : Store × Pc :=
+def stepPc (H : Nat → Nat) (cfg : Cfg) (prog : Prog) (exO shO : Bool) (g : Store) (pc : Pc) : Store × Pc :=
+  let ff := cfg.ff
   let b := opBid prog
   let ws := opWs prog
   match pc with
@@ -305,25 +332,25 @@ def stepPc (H : Nat → Nat) (ff : Bool) (prog : Prog) (exO shO : Bool) (g : Sto
     match prog.op with
     | .use .. => (g, .uOpen)
     | .install _ _ _ _ _ hasAudit _ =>
-      if (g.final b).isSome then afterShare prog g (.inst false)
+      if (g.final b).isSome then afterShare cfg prog g (.inst false)
       else
         let g := { g with storeExists := true }
         if !hasAudit then (g, .done (.err .installOSError))
         else (g, .iVerify)
-    | .gc .. => gcStart prog g
+    | .gc .. => gcStart cfg prog g
     | .dropws w => ({ g with links := upd g.links w none }, .done .dropped)
   -- useSharedPackage
   | .uOpen =>
     match g.repo with
-    | .absent => afterShare prog g .useNone
+    | .absent => afterShare cfg prog g .useNone
     | _ => (g, .uLockRepo)
   | .uLockRepo => if exO then (g, .uLockRepo) else (g, .uOpenPkg)
   | .uOpenPkg =>
     match g.final b with
-    | none => afterShare prog g .useNone
+    | none => afterShare cfg prog g .useNone
     | some d =>
       match d.info with
-      | none => afterShare prog g .useNone
+      | none => afterShare cfg prog g .useNone
       | some _ => (g, .uLockPkg)
   | .uLockPkg =>
     match g.final b with
@@ -341,7 +368,7 @@ def stepPc (H : Nat → Nat) (ff : Bool) (prog : Prog) (exO shO : Bool) (g : Sto
     let g := match pending with
       | some m' => setMeta g b (.valid m')
       | none => g
-    afterShare prog g r
+    afterShare cfg prog g r
   -- installSharedPackage
   | .iVerify =>
     match prog.op with
@@ -352,21 +379,23 @@ def stepPc (H : Nat → Nat) (ff : Bool) (prog : Prog) (exO shO : Bool) (g : Sto
          .iRename ⟨true, some dst, some (.valid ⟨claimed, size, [ws]⟩), g.clock⟩)
     | _ => (g, .done (.err .installOSError))
   | .iRename tmp =>
-    if (g.final b).isSome then afterShare prog g (.inst false)
+    if (g.final b).isSome then afterShare cfg prog g (.inst false)
     else ({ g with final := upd g.final b (some tmp), nInst := upd g.nInst b (g.nInst b + 1) }, .iAddOpen)
   | .iAddOpen =>
     match g.repo with
-    | .absent => (g, .iAddCreate)
+    | .absent =>
+      -- fix 3: create an empty file with a plain open and retry the locked update
+      if cfg.emptyOk then ({ g with repo := .torn }, .iAddOpen) else (g, .iAddCreate)
     | _ => (g, .iAddLock)
   | .iAddLock =>
     if exO || shO then (g, .iAddLock)
     else
-      match g.repo with
-      | .valid l =>
+      match readRepo cfg g.repo with
+      | some l =>
         let l' := setPkg l b (opSize prog)
         if ff then ({ g with repo := .valid l' }, .iAddClose none (sumSizes l') false)
         else ({ g with repo := .torn }, .iAddClose (some l') (sumSizes l') false)
-      | _ => (g, .iAddClose none 0 true)
+      | none => (g, .iAddClose none 0 true)
   | .iAddCreate =>
     match g.repo with
     | .absent => ({ g with repo := .torn }, .iAddCreateLock)
@@ -385,9 +414,9 @@ def stepPc (H : Nat → Nat) (ff : Bool) (prog : Prog) (exO shO : Bool) (g : Sto
     else
       match prog.quota with
       | some q =>
-        if total > q && prog.autoClean then gcStart prog g
-        else afterShare prog g (.inst true)
-      | none => afterShare prog g (.inst true)
+        if total > q && prog.autoClean then gcStart cfg prog g
+        else afterShare cfg prog g (.inst true)
+      | none => afterShare cfg prog g (.inst true)
   -- gc
   | .gOpen =>
     match g.repo with
@@ -396,9 +425,9 @@ def stepPc (H : Nat → Nat) (ff : Bool) (prog : Prog) (exO shO : Bool) (g : Sto
   | .gLock =>
     if exO || shO then (g, .gLock)
     else
-      match g.repo with
-      | .valid l => gcNext prog g l l [] 0
-      | _ => (g, .gClose none (.err .jsonDecode))
+      match readRepo cfg g.repo with
+      | some l => gcNext prog g l l [] 0
+      | none => (g, .gClose none (.err .jsonDecode))
   | .gScanOpen rmeta todo cands total =>
     match todo with
     | [] => gcPlan prog g rmeta cands total
@@ -441,7 +470,7 @@ def stepPc (H : Nat → Nat) (ff : Bool) (prog : Prog) (exO shO : Bool) (g : Sto
     let g := match pending with
       | some l => { g with repo := .valid l }
       | none => g
-    finishGc prog g r
+    finishGc cfg prog g r
   -- builder side
   | .bUnlink relink =>
     match g.links ws with
@@ -473,16 +502,16 @@ def isPublish (g : Store) (prog : Prog) (pc : Pc) : Bool :=
   | _ => false
 
 /-- process `p` runs its next segment -/
-def step (H : Nat → Nat) (ff : Bool) (s : St) (p : Pid) : St :=
+def step (H : Nat → Nat) (cfg : Cfg) (s : St) (p : Pid) : St :=
   match s.procs[p]? with
   | none => s
   | some pr =>
-    let r := stepPc H ff pr.prog (othersAny Pc.holdsEX s.procs p) (othersAny Pc.holdsSH s.procs p) s.g pr.pc
+    let r := stepPc H cfg pr.prog (othersAny Pc.holdsEX s.procs p) (othersAny Pc.holdsSH s.procs p) s.g pr.pc
     { g := r.1, procs := s.procs.set p { pr with pc := r.2, pub := pr.pub || isPublish s.g pr.prog pr.pc } }
 
-def run (H : Nat → Nat) (ff : Bool) (s : St) : List Pid → St
+def run (H : Nat → Nat) (cfg : Cfg) (s : St) : List Pid → St
   | [] => s
-  | p :: rest => run H ff (step H ff s p) rest
+  | p :: rest => run H cfg (step H cfg s p) rest
 
 def Pc.isDone : Pc → Bool
   | .done _ => true
